@@ -22,7 +22,7 @@ namespace {
 
 enum Kind { K_MH1 = 0, K_MH256 = 1, K_MUR = 2, K_ROLL = 3, K_GCM = 4, K_N = 5 };
 static const char *kind_name[K_N] = { "mh_sha1", "mh_sha256", "mh_sha1_murmur3_x64_128", "rolling_hash2", "aes_gcm" };
-enum { OP_DELIVER = 1, OP_FINALIZE = 2, OP_RESTART = 3 };
+enum { OP_DELIVER = 1, OP_FINALIZE = 2, OP_RESTART = 3, OP_MIGRATE = 4 };
 
 static const char *mh_fams[5] = { "base", "sse", "avx", "avx2", "avx512" };
 static const char *roll_impls[3] = { "base", "00", "04" };
@@ -417,7 +417,7 @@ struct StreamSim : Sim {
                 for (int i = 0; i < nops; i++) {
                         Op o;
                         int x = (int) g.below(100);
-                        o.kind = x < 88 ? OP_DELIVER : x < 94 ? OP_FINALIZE : OP_RESTART;
+                        o.kind = x < 86 ? OP_DELIVER : x < 92 ? OP_FINALIZE : x < 96 ? OP_RESTART : OP_MIGRATE;
                         o.a = (int64_t) g.below(1 << 16); // client selector
                         o.b = (int64_t) g.below(1 << 16); // fragment class
                         o.c = (int64_t) g.below(1 << 20); // value
@@ -438,7 +438,7 @@ struct StreamSim : Sim {
                 }
                 s += "] ops=[";
                 for (size_t i = 0; i < p.ops.size() && i < 20; i++)
-                        s += strfmt("%s%s(%lld,%lld,%lld)", i ? " " : "", p.ops[i].kind == OP_DELIVER ? "FRAG" : p.ops[i].kind == OP_FINALIZE ? "FIN" : "RESTART",
+                        s += strfmt("%s%s(%lld,%lld,%lld)", i ? " " : "", p.ops[i].kind == OP_DELIVER ? "FRAG" : p.ops[i].kind == OP_FINALIZE ? "FIN" : p.ops[i].kind == OP_RESTART ? "RESTART" : "MIGRATE",
                                     (long long) p.ops[i].a, (long long) p.ops[i].b, (long long) p.ops[i].c);
                 if (p.ops.size() > 20)
                         s += strfmt(" ... %zu ops", p.ops.size());
@@ -1271,6 +1271,25 @@ struct StreamSim : Sim {
                                 c.epoch++;
                                 start(s, ci);
                                 break;
+                        case OP_MIGRATE: {
+                                // checkpoint / restore: the client's plain-data object (stream context, rolling state, GCM context) is copied to another
+                                // address with a different phase within a cache line, the old copy is scribbled over, and the stream goes on there
+                                if (c.huge || !c.ctx)
+                                        break;
+                                size_t sz = c.kind == K_MH1     ? sizeof(struct isal_mh_sha1_ctx)
+                                            : c.kind == K_MH256 ? sizeof(struct isal_mh_sha256_ctx)
+                                            : c.kind == K_MUR   ? sizeof(struct isal_mh_sha1_murmur3_x64_128_ctx)
+                                            : c.kind == K_ROLL  ? sizeof(struct isal_rh_state2)
+                                                                : sizeof(struct isal_gcm_context_data);
+                                uint8_t *old = c.ctx;
+                                uint8_t *nw = e.mem.alloc(sz, 8, (Place) (o.d % 3), &e.hidden, "migrated object", R_OBJECT, 8 * (size_t) (1 + o.c % 7));
+                                memcpy(nw, old, sz);
+                                e.hidden.fill(old, sz);
+                                c.ctx = nw;
+                                e.ev(mix64(OP_MIGRATE, ((uint64_t) ci << 8) | (((uintptr_t) nw ^ (uintptr_t) old) & 63)));
+                                r.cov.hit(strfmt("fault_object_migrated_mid_stream_%s%s", kind_name[c.kind], (((uintptr_t) nw ^ (uintptr_t) old) & 63) ? "_other_line_phase" : ""));
+                                break;
+                        }
                         }
                 }
                 e.op_index = (int) p.ops.size();
